@@ -249,6 +249,67 @@ def check_rtf_source():
     return r
 
 
+def utf16_units_text(units):
+    """What a run of \\uN escapes means (RTF 1.9: N is a signed 16-bit UTF-16 code unit): a high surrogate followed by a low one
+    is ONE character beyond the BMP; a surrogate without partner is not a character (U+FFFD keeps the text encodable); every
+    other unit is the character with that code.  Written from the definition of UTF-16, independent of the codec."""
+    out, i = [], 0
+    while i < len(units):
+        u = units[i] & 0xFFFF
+        if 0xD800 <= u <= 0xDBFF and i + 1 < len(units) and 0xDC00 <= (units[i + 1] & 0xFFFF) <= 0xDFFF:
+            out.append(chr(0x10000 + ((u - 0xD800) << 10) + ((units[i + 1] & 0xFFFF) - 0xDC00)))
+            i += 2
+            continue
+        out.append("\ufffd" if 0xD800 <= u <= 0xDFFF else chr(u))
+        i += 1
+    return "".join(out)
+
+
+def check_rtf_unicode():
+    """\\uN escape runs: the decoder function on every run of <= 3 code units of a pool (ASCII, Latin-1, BMP, private use written
+    as a negative number, high / low surrogates, U+FFFD, U+FFFF), signed and unsigned spelling; then read_rtf on paragraphs and
+    table cells that contain such runs between ordinary words (exact characters, whitespace aside)."""
+    import itertools
+    R = _mod("ms_legacy.rtf_extractor")
+    r = Result()
+    pool = [0x41, 0xE9, 0x20AC, 0xF0B7, 0x4E2D, 0xD83D, 0xDE00, 0xD840, 0xDC00, 0xDBFF, 0xDFFF, 0xFFFD, 0xFFFF]
+    sur = lambda u: 0xD800 <= u <= 0xDFFF
+
+    def case_of(units):
+        pairs = any(0xD800 <= a <= 0xDBFF and 0xDC00 <= b <= 0xDFFF for a, b in zip(units, units[1:]))
+        return "surrogate-pair" if pairs else ("lone-surrogate" if any(sur(u) for u in units) else "bmp")
+    esc = lambda units, signed, ph="?": "".join("\\u%d%s" % (u - 0x10000 if signed and u >= 0x8000 else u, ph) for u in units)
+    f = _resolve(R, "_decode_unicode_run", 1, ["findall"])
+    if f is not None:
+        for k in (1, 2, 3):
+            for units in itertools.product(pool, repeat=k):
+                for signed in (True, False):
+                    run = esc(units, signed)
+                    want = utf16_units_text(units)
+                    try:
+                        got = f(run)
+                    except Exception as e:  # noqa
+                        got = f"<{type(e).__name__}: {e}>"
+                    r.add(case_of(units), got == want, {"target": "rtf_extractor._decode_unicode_run", "inputs": run, "expected": ascii(want), "observed": ascii(got),
+                                                        "kinds": ["lost", "leaked"] if len(got) != len(want) or sur(units[0]) else ["other"]})
+    PRO = "{\\rtf1\\ansi\\deff0{\\fonttbl{\\f0 Arial;}}\n"
+    nw = lambda t: "".join(t.split())
+    for k in (1, 2, 3):
+        for units in itertools.product([0xE9, 0xF0B7, 0xD83D, 0xDE00, 0xD840, 0xDC00], repeat=k):
+            for signed, where in ((True, "paragraph"), (False, "paragraph"), (True, "cell")):
+                text = utf16_units_text(units)
+                body = "V1v " + esc(units, signed) + " V2v"
+                src = PRO + ("\\pard\\plain " + body + "\\par\n" if where == "paragraph" else "\\trowd\\cellx3000 \\pard\\intbl " + body + "\\cell\\row\n") + "}"
+                try:
+                    out = "\n".join(x.get_full_text() for x in R.read_rtf(io.BytesIO(src.encode("ascii"))))
+                except Exception as e:  # noqa
+                    out = f"<{type(e).__name__}: {e}>"
+                want = "V1v " + text + " V2v"
+                r.add(case_of(units) + "-in-document", nw(out) == nw(want), {"target": "rtf_extractor.read_rtf(...).get_full_text()", "inputs": src, "expected": ascii(want),
+                                                                            "observed": ascii(out), "kinds": ["lost", "leaked"]})
+    return r
+
+
 def check_epub_source():
     """read_epub on one XHTML chapter built from the same source grammar (html.parser based _XhtmlTextExtractor)."""
     E = _mod("epub_extractor")
@@ -625,6 +686,7 @@ CHECKS = {
     "odt.body": check_odt_body, "html.extract": check_html_body, "odf.element_text": check_odf_text,
     "ods.sheet": check_ods_sheet, "xlsx.format": check_xlsx_format, "xls.format": check_xls_format,
     "dt.slides": check_dt_slides, "odp.slide": check_odp_slide, "html.source": check_html_source, "rtf.source": check_rtf_source, "pptx.shapes": check_pptx_shape_tree, "plain.decode": check_plain_decode, "epub.tables": check_epub_tables, "odp.tables": check_odp_tables, "epub.source": check_epub_source, "odg.text": check_odg_text, "pptx.paragraphs": check_pptx_paragraphs,
+    "rtf.unicode": check_rtf_unicode,
 }
 
 
@@ -647,7 +709,7 @@ def run_checks(names=None):
 # find / rerun
 # ============================================================================================
 # html constructs without a recorded finding (a failure there is a new defect of the node walk)
-HTML_SOUND_CASES = ["p", "inline", "spans", "p-br", "list", "nested-list", "list-item-tails", "hr", "table", "table-sections", "table-tail", "dl", "pre", "combinations"]
+HTML_SOUND_CASES = ["p", "inline", "spans", "p-br", "list", "nested-list", "list-item-tails", "hr", "table", "table-sections", "table-tail", "dl", "pre", "empty-leaves", "empty-blocks", "combinations"]
 
 FUNC_OF_CHECK = {
     "docx.table": "docx_extractor.py::_extract_table_text", "odt.body": "odt_extractor.py::_extract_full_text",
@@ -657,6 +719,7 @@ FUNC_OF_CHECK = {
     "odg.text": "odg_extractor.py::_extract_full_text", "pptx.paragraphs": "pptx_extractor.py::_extract_text_from_paragraphs",
     "odp.slide": "odp_extractor.py::_extract_slide", "html.source": "html_extractor.py::read_html",
     "rtf.source": "rtf_extractor.py::read_rtf", "pptx.shapes": "pptx_extractor.py::read_pptx", "plain.decode": "plain_extractor.py::read_plain_text", "epub.tables": "epub_extractor.py::read_epub.iterate_tables", "odp.tables": "odp_extractor.py::read_odp.iterate_tables", "epub.source": "epub_extractor.py::read_epub",
+    "rtf.unicode": "rtf_extractor.py::_decode_unicode_run",
 }
 
 # obligation id fragment -> (check, cases, kinds)
@@ -679,6 +742,8 @@ WITNESS_MAP = [
     ("_extract_sheet/block#", "ods.sheet", None, None),
     ("plain_extractor.py::", "plain.decode", None, None),
     ("_strip_rtf_full_with_pages/step", "rtf.source", None, None),
+    ("_decode_unicode_run/", "rtf.unicode", None, None),
+    ("_append_full_text_from_element/policy#", "odt.body", None, None),
     ("_extract_slide/block#slide-text", "odp.slide", None, None),
     ("_extract_slide/block#speaker-notes", "odp.slide", None, ["leaked"]),
     ("xls_extractor.py::_format_sheet_as_text/", "xls.format", None, None),
@@ -688,6 +753,32 @@ WITNESS_MAP = [
     ("_HtmlTextExtractor._get_node_text", "html.extract", HTML_SOUND_CASES, None),
     ("_HtmlTextExtractor._process_node", "html.extract", HTML_SOUND_CASES, None),
 ]
+
+
+def _recorded_cases(check, oid):
+    """Cases of `check` that are the witness of a recorded (still open) finding of this property -- unless the finding covers
+    the obligation asked for."""
+    out = set()
+    try:
+        with open(os.path.join(os.path.dirname(os.path.dirname(os.path.abspath(__file__))), "known_findings.json")) as fh:
+            kf = json.load(fh)
+        fn = FUNC_OF_CHECK.get(check)
+        for f in kf.get("findings", []) if isinstance(kf, dict) else []:
+            if f.get("property") != "C02":
+                continue
+            ids = f.get("covers", [f.get("obligation", "")])
+            if oid in ids:
+                continue
+            w = f.get("witness") or {}
+            if w.get("check") == check and w.get("case"):
+                out.add(w["case"])
+            for i in ids:
+                m = re.search(r"C02/(.+)/bounded#tokens\[(.+)\]$", i or "")
+                if m and fn and m.group(1) == fn:
+                    out.add(m.group(2))
+    except Exception:  # noqa
+        return set()
+    return out
 
 
 def find(req):
@@ -725,6 +816,10 @@ def find(req):
     for frag, check, cases, kinds in WITNESS_MAP:
         if frag in oid:
             r = CHECKS[check]()
+            if cases is None:           # a recorded finding's own cases are not a failing input of some OTHER obligation
+                rec = _recorded_cases(check, oid)
+                if rec:
+                    cases = [c for c in r.cases if c not in rec]
             w = r.first_failure(cases, kinds)
             if w is not None:
                 return dict(w, reproduced=True, search=f"{check} (all trees of the small grammar in replay/c02_trees.py)")
